@@ -223,16 +223,19 @@ impl Check for Elsewhere {
     }
 }
 
+pub const E2E: super::e2e::EndToEnd = super::e2e::EndToEnd { part: "end-to-end-binary-vs-handler", methods: &["textDocument/declaration", "textDocument/definition", "textDocument/implementation", "textDocument/typeDefinition"] };
+
 pub fn checks() -> Vec<Box<dyn Check>> {
-    vec![Box::new(Goto), Box::new(Elsewhere)]
+    vec![Box::new(Goto), Box::new(Elsewhere), Box::new(E2E)]
 }
 
 pub fn run(ctx: &Ctx) -> i32 {
-    let parts = vec![
+    let mut parts = vec![
         crate::corpus_part(ctx, &checks()),
         run_pbt(ctx, &Goto, ctx.n(20_000, 300_000)),
         run_pbt(ctx, &Elsewhere, ctx.n(6_000, 100_000)),
     ];
+    parts.push(run_pbt(ctx, &E2E, ctx.n(400, 8_000)));
     finish(
         ctx,
         parts,
